@@ -14,7 +14,7 @@ import functools
 import collections
 import numpy as np
 import schedula as sh
-from decimal import Decimal, ROUND_HALF_UP
+from decimal import Decimal, ROUND_HALF_UP, localcontext
 from . import (
     get_error, raise_errors, is_number, flatten, wrap_ufunc, wrap_func,
     replace_empty, Error, xfilter, wrap_impure_func, COMPILING, to_number,
@@ -90,6 +90,11 @@ def xceiling(num, sig, ceil=math.ceil, dfl=0):
         return dfl
     elif sig < 0 < num:
         return np.nan
+    if ceil in (math.ceil, math.floor):
+        with localcontext() as ctx:
+            ctx.prec = 1000
+            sig = _decimal(sig)
+            return float(ceil(_decimal(num) / sig) * sig)
     return ceil(num / sig) * sig
 
 
@@ -360,12 +365,20 @@ FUNCTIONS['ROMAN'] = wrap_ufunc(xroman, input_parser=lambda *a: a)
 
 
 def round_up(x):
-    return float(Decimal(x).quantize(0, rounding=ROUND_HALF_UP))
+    return Decimal(x).quantize(0, rounding=ROUND_HALF_UP)
+
+
+def _decimal(x):
+    # The decimal number Excel shows for a double (1.005 is 1.005, not
+    # 1.00499999999999989...).
+    return Decimal(repr(float(x)))
 
 
 def xround(x, d, func=round_up):
-    d = 10 ** int(d)
-    v = func(abs(x * d)) / d
+    d = max(-400, min(400, int(d)))
+    with localcontext() as ctx:
+        ctx.prec = 1000
+        v = float(Decimal(int(func(abs(_decimal(x)).scaleb(d)))).scaleb(-d))
     return -v if x < 0 else v
 
 
